@@ -232,7 +232,7 @@ def refund (c : Ctx) (s : St) (cand : Nat) : St :=
 def doRegister (c : Ctx) (s : St) (from' : Nat) (amount : Int) (flag : Nat) (income : Nat) (nodeDep : Bool := false) : Except Err St :=
   let a := s.accts from'
   let inc := if income = 0 then from' else income
-  if c.flagCheck = true ∧ (flag = 0 ∨ flag = 3) then .error .invalidProfile
+  if c.flagCheck = true ∧ flag ≠ 1 ∧ flag ≠ 2 then .error .invalidProfile
   else if a.isCand = 0 then
     -- registerCandidate
     if c.flagCheck = true ∧ flag = 2 then .error .notCandidate
